@@ -25,8 +25,13 @@ def _coll(kind, items):
     return {'list': list, 'tuple': tuple, 'set': set}[kind](items)
 
 
+ABSENT = ['Al', 'Ti', 'Zr', 'La', 'Ge', 'Cl', 'Br', 'Mg', 'Ca', 'Sr', 'Ba', 'Y', 'Nb', 'Ta', 'W', 'Mo']  # elements that never occur in the generated trajectories
+
+
 def _kwargs(case, symbols_ref, symbols_float):
     mode, kind = case['ref_mode'], case['ref_kind']
+    pad = ABSENT[: case.get('pad_names', 0)] if kind != 'str' else []  # a generic framework list may name species this run does not contain
+    symbols_ref, symbols_float = list(symbols_ref) + pad, list(symbols_float) + pad
     if mode == 'fixed':
         return {'fixed_species': _coll(kind, symbols_ref)}
     if mode == 'floating':
@@ -51,9 +56,15 @@ def run(case):
         k = case['tile']
         path = np.concatenate([path[:1], path[:1] + np.cumsum(np.tile(st_, (k, 1, 1)), axis=0)], axis=0)
         rigid = np.concatenate([rigid[:1], np.cumsum(np.tile(rs_, (k, 1)), axis=0)], axis=0)
+    symbols = case['symbols']
+    if case.get('replicate', 1) > 1:
+        # the same system with every atom repeated r times at positions shifted by small, atom-specific offsets (thousands of atoms)
+        r = case['replicate']
+        off = (np.arange(r).reshape(1, r, 1, 1) * np.array([0.00037, 0.00011, 0.00023]).reshape(1, 1, 1, 3))
+        path = (path[:, None, :, :] + off).reshape(path.shape[0], -1, 3)
+        symbols = list(symbols) * r
     T, N, _ = path.shape
     M = np.array(case['lattice']['matrix'], float)
-    symbols = case['symbols']
     kinds = sorted(set(symbols))
     order = [k for k in case.get('ref_order', []) if k < len(kinds)]
     kinds = [kinds[k] for k in order] + [x for i, x in enumerate(kinds) if i not in order]
@@ -193,6 +204,8 @@ def drift_cases(draw, tier):
     c['species_kind'] = draw(st.sampled_from(['Species', 'Element', 'Species-oxi']))
     c['tile'] = draw(st.sampled_from([1, 1, 1, 1, 130, 260])) if T >= 9 else 1
     c['derive'] = draw(cases.derive_strategy())  # the trajectory under test as a frame range / species selection / joined pieces of other trajectories
+    c['pad_names'] = draw(st.sampled_from([0, 0, 0, 3, 12, 16]))
+    c['replicate'] = draw(st.sampled_from([1, 1, 1, 1, 1700, 2100])) if T <= 4 else 1  # every atom repeated: thousands of reference atoms
     return c
 
 
